@@ -43,6 +43,7 @@ type (
 		Forall bool
 		Vars   []CVar
 		Body   CExpr
+		Array  bool // `array p int :: e` : the function p -> e as an SMT array (comprehension)
 	}
 )
 
@@ -308,7 +309,7 @@ func (ps *cparser) primary() CExpr {
 			return CLit{"bool", t.val}
 		case "nil":
 			return CLit{"nil", ""}
-		case "forall", "exists":
+		case "forall", "exists", "lambda":
 			var vars []CVar
 			for {
 				n := ps.next()
@@ -325,7 +326,7 @@ func (ps *cparser) primary() CExpr {
 			}
 			ps.expectOp("::")
 			body := ps.expr(0)
-			return CQuant{t.val == "forall", vars, body}
+			return CQuant{Forall: t.val == "forall", Vars: vars, Body: body, Array: t.val == "lambda"}
 		}
 		if ps.isOp("(") {
 			ps.p++
